@@ -45,3 +45,180 @@ benign("c18-both-early-return", ["C18"], both("""        if parent is not value:
         self.__detach(parent)
         self.__attach(value)
 """))
+
+# ------------------------------------------------------- C01 / C02 / C03 / C16
+DET_ATOMIC = """            parent.__children = [child for child in parentchildren if child is not self]
+            self.__parent = None
+"""
+seeded("c01-hook-between-atomic-writes", ["C01", "C16"], both(
+    DET_ATOMIC + "            # ATOMIC END\n            self._post_detach(parent)\n",
+    "            parent.__children = [child for child in parentchildren if child is not self]\n"
+    "            self._post_detach(parent)\n            self.__parent = None\n            # ATOMIC END\n"), ["W2", "H1"])
+seeded("c01-children-returns-raw-list", ["C01"], both(
+    "        return tuple(self.__children_or_empty)\n", "        return self.__children_or_empty\n"), ["W6"])
+seeded("c01-foreign-link-write", ["C01"], [("anytree/node/node.py", "        self.name = name\n",
+                                            "        self.name = name\n        self._NodeMixin__children = []\n")], ["W1"])
+seeded("c01-setattr-string-link-write", ["C01"], [("anytree/importer/dictimporter.py", "        for child in children:\n",
+                                                   "        setattr(node, \"_NodeMixin__parent\", parent)\n        for child in children:\n")], ["W1"])
+seeded("c01-loopcheck-after-detach", ["C01", "C03"], both(
+    "            self.__check_loop(value)\n            self.__detach(parent)\n",
+    "            self.__detach(parent)\n            self.__check_loop(value)\n"), ["W5", "A2"])
+seeded("c01-no-ancestor-scan", ["C01"], both(
+    """            if any(child is self for child in node.iter_path_reverse()):
+                msg = "Cannot set parent. %r is parent of %r."
+                raise LoopError(msg % (self, node))
+""", ""), ["W5"])
+seeded("c01-assert-unguarded", ["C01"], both(
+    """        if ASSERTIONS:  # pragma: no branch
+            assert len(self.children) == 0
+""", """        assert len(self.children) == 0
+"""), ["W8"])
+seeded("c01-only-list-write", ["C01"], both("            self.__parent = None\n", "            pass\n"), ["W2"])
+seeded("c01-attach-wrong-parent-field", ["C01"], both("            self.__parent = parent\n            # ATOMIC END\n            self._post_attach",
+                                                       "            self.__parent = self\n            # ATOMIC END\n            self._post_attach"), ["W3"])
+seeded("c01-deleter-clears-list-directly", ["C01"], both(
+    "        for child in self.children:\n            child.parent = None\n",
+    "        for child in self.children:\n            child.parent = None\n        self.__children_or_empty.clear()\n"), ["W1"])
+benign("c01-attach-by-concat", ["C01", "C02", "C16", "C03"], both(
+    "            parentchildren.append(self)\n", "            parent.__children = parentchildren + [self]\n"))
+benign("c01-loopcheck-as-for-loop", ["C01", "C02", "C03"], both(
+    """            if any(child is self for child in node.iter_path_reverse()):
+                msg = "Cannot set parent. %r is parent of %r."
+                raise LoopError(msg % (self, node))
+""", """            for child in node.iter_path_reverse():
+                if child is self:
+                    msg = "Cannot set parent. %r is parent of %r."
+                    raise LoopError(msg % (self, node))
+"""))
+benign("c01-noop-guard-early-return", ["C01", "C02", "C03", "C16"], both("""        if parent is not value:
+            self.__check_loop(value)
+            self.__detach(parent)
+            self.__attach(value)
+""", """        if value is parent:
+            return
+        self.__check_loop(value)
+        self.__detach(parent)
+        self.__attach(value)
+"""))
+benign("c01-detach-filter-not-is", ["C01", "C02", "C16"], both(
+    "[child for child in parentchildren if child is not self]", "[c for c in parentchildren if not (c is self)]"))
+
+seeded("c02-attach-at-front", ["C02"], both("            parentchildren.append(self)\n", "            parentchildren.insert(0, self)\n"), ["E4"])
+seeded("c02-no-noop-guard", ["C02", "C16"], both("        if parent is not value:\n", "        if True:\n"), ["E1", "H3"])
+seeded("c02-noop-guard-on-equality-of-none", ["C02"], both("        if parent is not value:\n", "        if parent is not value or value is None:\n"), ["E1"])
+seeded("c02-attach-loop-reversed", ["C02"], both(
+    "            for child in children:\n                child.parent = self\n",
+    "            for child in reversed(children):\n                child.parent = self\n"), ["E5"])
+seeded("c02-duplicates-by-equality", ["C02", "C17"], both(
+    "            childid = id(child)\n", "            childid = child\n"), ["E3", "T2", "T4"])
+seeded("c02-duplicate-check-dropped", ["C02"], both(
+    """            if childid not in seen:
+                seen.add(childid)
+            else:
+                msg = "Cannot add node %r multiple times as child." % (child,)
+                raise TreeError(msg)
+""", "            seen.add(childid)\n"), ["E3", "E2"])
+seeded("c02-constructor-drops-last-child", ["C02"], [("anytree/node/anynode.py", "            self.children = children\n",
+                                                      "            self.children = children[:-1]\n")], ["E5c"])
+seeded("c02-constructor-parent-conditional", ["C02"], [("anytree/node/node.py", "        self.parent = parent\n",
+                                                        "        if parent:\n            self.parent = parent\n")], ["E5c"])
+seeded("c02-detach-removes-by-equality", ["C02", "C17"], both(
+    "[child for child in parentchildren if child is not self]", "[child for child in parentchildren if child != self]"), ["E4", "T1", "W3"])
+seeded("c02-attach-before-detach-children", ["C02", "C16"], both(
+    """        old_children = self.children
+        del self.children
+        try:
+            self._pre_attach_children(children)
+            for child in children:
+                child.parent = self
+""", """        old_children = self.children
+        try:
+            self._pre_attach_children(children)
+            for child in children:
+                child.parent = self
+            for child in old_children:
+                if not any(child is c for c in children):
+                    child.parent = None
+"""), ["E5", "H5", "H4"])
+
+seeded("c03-typecheck-after-detach", ["C03", "C02"], [(NM, """        if value is not None and not isinstance(value, (NodeMixin, LightNodeMixin)):
+            msg = "Parent node %r is not of type 'NodeMixin'." % (value,)
+            raise TreeError(msg)
+        if hasattr(self, "_NodeMixin__parent"):
+            parent = self.__parent
+        else:
+            parent = None
+        if parent is not value:
+            self.__check_loop(value)
+            self.__detach(parent)
+""", """        if hasattr(self, "_NodeMixin__parent"):
+            parent = self.__parent
+        else:
+            parent = None
+        if parent is not value:
+            self.__check_loop(value)
+            self.__detach(parent)
+            if value is not None and not isinstance(value, (NodeMixin, LightNodeMixin)):
+                msg = "Parent node %r is not of type 'NodeMixin'." % (value,)
+                raise TreeError(msg)
+""")], ["A2", "E2"])
+seeded("c03-pre-detach-after-write", ["C03", "C16"], both(
+    "            self._pre_detach(parent)\n            parentchildren = parent.__children_or_empty\n",
+    "            parentchildren = parent.__children_or_empty\n") + both(
+    "            # ATOMIC END\n            self._post_detach(parent)\n",
+    "            # ATOMIC END\n            self._pre_detach(parent)\n            self._post_detach(parent)\n"), ["A2", "H1"])
+seeded("c03-try-removed", ["C03"], both("""        try:
+            self._pre_attach_children(children)
+            for child in children:
+                child.parent = self
+            self._post_attach_children(children)
+            if ASSERTIONS:  # pragma: no branch
+                assert len(self.children) == len(children)
+        except Exception:
+            self.children = old_children
+            raise
+""", """        self._pre_attach_children(children)
+        for child in children:
+            child.parent = self
+        self._post_attach_children(children)
+"""), ["A2"])
+seeded("c03-validation-after-delete", ["C03", "C02"], [(NM, """        NodeMixin.__check_children(children)
+        # ATOMIC start
+        old_children = self.children
+        del self.children
+""", """        # ATOMIC start
+        old_children = self.children
+        del self.children
+        NodeMixin.__check_children(children)
+""")], ["A2", "E2"])
+seeded("c03-handler-catches-only-looperror", ["C03"], both("        except Exception:\n            self.children = old_children\n",
+                                                        "        except LoopError:\n            self.children = old_children\n"), ["A2"])
+
+seeded("c16-post-detach-dropped", ["C16"], both("            self._post_detach(parent)\n", ""), ["H1"])
+seeded("c16-post-attach-doubled", ["C16"], both("            self._post_attach(parent)\n",
+                                                "            self._post_attach(parent)\n            self._post_attach(parent)\n"), ["H1"])
+seeded("c16-pre-detach-wrong-arg", ["C16"], both("            self._pre_detach(parent)\n", "            self._pre_detach(self)\n"), ["H1"])
+seeded("c16-post-attach-on-parent", ["C16"], both("            self._post_attach(parent)\n", "            parent._post_attach(self)\n"), ["H1"])
+seeded("c16-pre-detach-children-after-loop", ["C16"], both(
+    """        self._pre_detach_children(children)
+        for child in self.children:
+            child.parent = None
+""", """        for child in self.children:
+            child.parent = None
+        self._pre_detach_children(children)
+"""), ["H4"])
+seeded("c16-post-detach-children-new-snapshot", ["C16"], both(
+    "        self._post_detach_children(children)\n", "        self._post_detach_children(self.children)\n"), ["H4"])
+seeded("c16-attach-children-hook-gets-raw-arg", ["C16"], both(
+    "        children = tuple(children)\n", "        children_ = tuple(children)\n") + both(
+    "            self._post_attach_children(children)\n", "            self._post_attach_children(children)\n"), None, allow_error=True)
+seeded("c16-hook-called-elsewhere", ["C16"], [("anytree/node/node.py", "        self.parent = parent\n",
+                                               "        self.parent = parent\n        self._post_attach(parent)\n")], ["H6"])
+seeded("c16-default-hook-not-empty", ["C16"], both(
+    '        """Method call before attaching to `parent`."""\n',
+    '        """Method call before attaching to `parent`."""\n        self.touched = True\n'), ["H6"])
+seeded("c16-hook-on-noop-path", ["C16", "C02"], both(
+    "        if parent is not value:\n            self.__check_loop(value)\n",
+    "        self._pre_attach(value)\n        if parent is not value:\n            self.__check_loop(value)\n"), ["H1", "E1"])
+seeded("c16-post-hook-exception-swallowed", ["C16"], both(
+    "            self.__attach(value)\n", "            try:\n                self.__attach(value)\n            except Exception:\n                pass\n"), ["H3"])
